@@ -118,7 +118,7 @@ var sureStatus = map[int]bool{200: true, 203: true, 301: true, 308: true, 404: t
 
 // storableForSure: the narrow class every build of this cache must store.
 func storableForSure(o *OResp) bool {
-	if o.Is304 || o.Req.Method != "GET" || o.Req.Header.Get("Range") != "" || !sureStatus[o.Status] || !o.Complete {
+	if o.Is304 || o.Req.Method != "GET" || o.Req.Header.Get("Range") != "" || !sureStatus[o.Status] || !o.Complete || !o.Delivered {
 		return false
 	}
 	if o.Req.Header.Get("If-None-Match") != "" || o.Req.Header.Get("If-Modified-Since") != "" {
